@@ -1982,7 +1982,33 @@ static int64_t eval2(Node *node, char ***label) {
   return wrap_to_type(node->ty, val);
 }
 
+// The truth value of an operand of !, &&, || or ?:, which may be of
+// floating type (0.5 is true).
+static bool eval_truth(Node *node) {
+  add_type(node);
+  if (is_flonum(node->ty))
+    return eval_double(node) != 0;
+  return eval(node) != 0;
+}
+
 static int64_t eval3(Node *node, char ***label) {
+  // Comparisons of floating operands yield an int.
+  if ((node->kind == ND_EQ || node->kind == ND_NE || node->kind == ND_LT || node->kind == ND_LE) &&
+      is_flonum(node->lhs->ty)) {
+    long double lhs = eval_double(node->lhs);
+    long double rhs = eval_double(node->rhs);
+
+    switch (node->kind) {
+    case ND_EQ:
+      return lhs == rhs;
+    case ND_NE:
+      return lhs != rhs;
+    case ND_LT:
+      return lhs < rhs;
+    default:
+      return lhs <= rhs;
+    }
+  }
 
   // Operands are evaluated left to right explicitly. C leaves the order
   // of `f(x) + f(y)` unspecified, and here it decides which of two
@@ -2056,17 +2082,17 @@ static int64_t eval3(Node *node, char ***label) {
       return (uint64_t)lhs <= rhs;
     return lhs <= rhs;
   case ND_COND:
-    return eval(node->cond) ? eval2(node->then, label) : eval2(node->els, label);
+    return eval_truth(node->cond) ? eval2(node->then, label) : eval2(node->els, label);
   case ND_COMMA:
     return eval2(node->rhs, label);
   case ND_NOT:
-    return !eval(node->lhs);
+    return !eval_truth(node->lhs);
   case ND_BITNOT:
     return ~eval(node->lhs);
   case ND_LOGAND:
-    return eval(node->lhs) && eval(node->rhs);
+    return eval_truth(node->lhs) && eval_truth(node->rhs);
   case ND_LOGOR:
-    return eval(node->lhs) || eval(node->rhs);
+    return eval_truth(node->lhs) || eval_truth(node->rhs);
   case ND_CAST: {
     if (node->ty->kind == TY_BOOL && is_flonum(node->lhs->ty))
       return eval_double(node->lhs) != 0;
@@ -2152,7 +2178,7 @@ static bool is_const_expr(Node *node) {
   case ND_COND:
     if (!is_const_expr(node->cond))
       return false;
-    return is_const_expr(eval(node->cond) ? node->then : node->els);
+    return is_const_expr(eval_truth(node->cond) ? node->then : node->els);
   case ND_COMMA:
     return is_const_expr(node->rhs);
   case ND_NEG:
